@@ -158,6 +158,25 @@ def run(ctx, res):
         if not (family.same(outs[0], outs[1]) and family.same(outs[0], outs[2])):
             res.violations.append({'key': None, 'sig': 'stateful-udf', 'what': 'a stateful user-defined function used by three mapping groups: number_of_processes 1 / 3 / 1 give %s' % [str(o)[:120] for o in outs],
                                    'replay': {'case': case}})
+    # the library entry point: statements with characters that some line-splitting routines take for line ends (U+2028, U+2029, U+0085, VT, FF, FS, GS, RS)
+    # inside literals -- the set returned with several processes is the set returned with one
+    odd = ['a\u2028b', 'c\u2029', '\x85d', 'e\x0bf', 'g\x0ch', 'i\x1cj', 'k\x1d', '\x1el', 'plain', 'two words']
+    for rep in range(ctx.scale(3, 12)):
+        n = ctx.rng.choice([3, 5, 8])
+        rows = [[str(i + 1), ctx.rng.choice(odd), ctx.rng.choice(odd)] for i in range(n)]
+        poms = [{'preds': [tmx('const', EXN + 'p/q%d' % j)], 'objs': [{'m': m, 'lang': None, 'dt': None, 'joins': []}], 'graphs': []}
+                for j, m in enumerate([tmx('ref', 'v'), tmx('templ', 'x {w} y', 'iri', 'lit'), tmx('templ', EXN + 'o/{v}')])]
+        case = {'cfg': {'nquads': ctx.rng.random() < 0.5, 'mode': ctx.rng.choice(['PARTIAL-AGGREGATIONS', 'MAXIMAL'])},
+                'sources': [{'key': 'S0', 'kind': 'csv', 'cols': ['id', 'v', 'w'], 'rows': rows}],
+                'doc': [{'id': EXN + 'tm/T', 'src': 'S0', 'nonasserted': False, 'subj': tmx('templ', EXN + 'r/{id}'), 'sjoins': [], 'classes': [], 'sgraphs': [], 'poms': poms}]}
+        batch = family.Batch(ctx)
+        outs = [batch.run([case], want_spec=False, cfg_override={'procs': pr})[0]['impl'] for pr in (1, 2, 4)]
+        res.evaluations += 1
+        res.count('library:line-boundary-characters')
+        if not (family.same(outs[0], outs[1]) and family.same(outs[0], outs[2])):
+            diff = [x for o in outs[1:] if o[0] == 'ok' for x in o[1] if outs[0][0] == 'ok' and x not in set(outs[0][1])][:2]
+            res.violations.append({'key': None, 'sig': 'library-procs', 'what': 'materialize_set with number_of_processes 1 / 2 / 4 gives different sets: %s; e.g. only with several processes %r'
+                                   % ([(o[0], len(o[1]) if o[0] == 'ok' else o[1]) for o in outs], diff), 'replay': {'case': case}})
     res.samples = [{'rows': s[0], 'share_of_long_lines': s[1], 'mode': s[2]} for s in specs[:4]]
 
 
